@@ -29,6 +29,9 @@ def _raise_class(fv, r):
 
 class Atom:
     def __init__(self, expr: ast.AST, pol: bool):
+        if isinstance(expr, ast.Compare) and len(expr.ops) == 1 and isinstance(expr.ops[0], ast.NotIn):
+            # `a not in b` known True is `a in b` known False: one canonical spelling for membership atoms
+            expr, pol = ast.copy_location(ast.Compare(left=expr.left, ops=[ast.In()], comparators=expr.comparators), expr), not pol
         self.expr, self.pol = expr, pol
         self.cmp: Optional[Cmp] = None
         self.kind = "other"
